@@ -41,11 +41,69 @@ type c14Case struct {
 func genC14(kind string, seed int64) *c14Case {
 	rng := rand.New(rand.NewSource(seed))
 	gen := &mcisco.Gen{Rng: rng, Kind: kind, Small: true}
+	// Every third ASA pair also uses object-groups: lines whose group is
+	// replaced by a new one are inserts and deletes like any other.
+	gen.SmallGroups = kind == "asa" && seed%3 == 0
 	t := gen.Target()
 	c := &c14Case{Type: kind, Seed: seed, Mode: "edits"}
 	var d *mcisco.GConf
 	mode := rng.Intn(7) // 0 independent, 1-2 edits, 3 dense, 4-5 split, 6 exception
-	if mode == 0 {
+	if kind == "asa" && seed%7 == 5 && len(t.ACLs) > 0 {
+		// A line keeps its text while its object-group is replaced by a
+		// new one (most members differ), next to lines of the other
+		// action that are added or removed and overlap the group.
+		c.Mode = "group-replace"
+		d, _ = gen.Device(t, 0, false)
+		perm := rng.Perm(4)
+		h := func(i int) string { return fmt.Sprintf("host 10.1.1.%d", 1+perm[i]) }
+		x, y := "permit", "deny"
+		if rng.Intn(3) == 0 {
+			x, y = y, x
+		}
+		// device {h0,h1,h2}, target {h0,h3}: h1,h2 leave, h3 joins.
+		t.Groups = append(t.Groups, &mcisco.GGroup{Name: "gx", Members: []string{h(0), h(3)}})
+		d.Groups = append(d.Groups, &mcisco.GGroup{Name: "gx", Members: []string{h(0), h(1), h(2)}})
+		groupLine := x + " ip object-group gx any4"
+		if rng.Intn(2) == 0 {
+			groupLine = x + " ip any4 object-group gx"
+		}
+		side := func(host string) string {
+			if strings.HasSuffix(groupLine, "any4") {
+				return fmt.Sprintf("%s ip %s any4", y, host)
+			}
+			return fmt.Sprintf("%s ip any4 %s", y, host)
+		}
+		ta, da := t.ACLs[0], d.ACLs[0]
+		keep := append([]string{}, ta.Lines...)
+		if len(keep) > 4 {
+			keep = keep[:4]
+		}
+		tail := x + " ip any4 any4"
+		var tl, dl []string
+		// Opposite-action lines above the group line: some only on the
+		// device (deleted), some only in the target (inserted).
+		for i := 0; i < 4; i++ {
+			switch rng.Intn(4) {
+			case 0:
+				dl = append(dl, side(h(i)))
+			case 1:
+				tl = append(tl, side(h(i)))
+			case 2:
+				dl = append(dl, side(h(i)))
+				tl = append(tl, side(h(i)))
+			}
+		}
+		k := rng.Intn(len(keep) + 1)
+		tl = append(append(append(tl, keep[:k]...), groupLine), keep[k:]...)
+		dl = append(append(append(dl, keep[:k]...), groupLine), keep[k:]...)
+		if rng.Intn(2) == 0 {
+			// further changes below the group line
+			tl = append(tl, side("10.1.2.0 255.255.255.0"))
+		}
+		ta.Lines = mcisco.DedupLines(append(tl, tail), false)
+		da.Lines = mcisco.DedupLines(append(dl, tail), false)
+		c.Edits = []string{"group-replaced-in-unchanged-line"}
+	} else if mode == 0 {
 		// Independent draw of the old ACLs for the same bindings.
 		c.Mode = "independent"
 		d, _ = gen.Device(t, 0, false)
@@ -495,6 +553,8 @@ type c14Result struct {
 	Inconclusive string
 	Universe     int
 	Info         string
+	// Packets not judged because a member of a group in use is added or removed in place.
+	SkippedPackets int
 }
 
 func runC14(env *run.Env, c *c14Case) c14Result {
@@ -529,8 +589,44 @@ func runC14(env *run.Env, c *c14Case) c14Result {
 	for _, k := range keys {
 		acls = append(acls, dev.ACEs(ob[k]), tgt.ACEs(nb[k]))
 	}
-	univ := mcisco.Universe(acls, nil)
+	orig := dev.Clone()
+	ogl, tgl := orig.GroupLookup(), tgt.GroupLookup()
+	univ := mcisco.Universe(acls, func(name string) []mcisco.Side { return append(ogl(name), tgl(name)...) })
 	res.Universe = len(univ)
+	// Membership edits of a group that stays in use are outside the
+	// statement: packets of the members added or removed in place are
+	// not judged.
+	var inPlace []mcisco.Side
+	curGroup := ""
+	for _, entry := range strings.Split(r.Stdout, "\n") {
+		for _, cmd := range strings.Split(entry, "\\N ") {
+			w := strings.Fields(cmd)
+			switch {
+			case len(w) == 3 && w[0] == "object-group" && w[1] == "network":
+				curGroup = w[2]
+			case strings.HasPrefix(cmd, "network-object") || strings.HasPrefix(cmd, "no network-object"):
+				if s, ok := mcisco.MemberSide(cmd); ok && curGroup != "" && orig.Group(curGroup) != nil {
+					inPlace = append(inPlace, s)
+				}
+			default:
+				curGroup = ""
+			}
+		}
+	}
+	skip := make([]bool, len(univ))
+	for j, p := range univ {
+		for _, s := range inPlace {
+			if s.Addr.Contains(p.Src) || s.Addr.Contains(p.Dst) {
+				skip[j] = true
+			}
+		}
+	}
+	res.SkippedPackets = 0
+	for _, b := range skip {
+		if b {
+			res.SkippedPackets++
+		}
+	}
 	oldV := verdictVector(dev, keys, univ)
 	newV := verdictVector(tgt, keys, univ)
 	oldR, newR := routedDst(dev), routedDst(tgt)
@@ -555,6 +651,9 @@ func runC14(env *run.Env, c *c14Case) c14Result {
 		cur := verdictVector(dev, keys, univ)
 		for _, k := range keys {
 			for j := range univ {
+				if skip[j] {
+					continue
+				}
 				if oldV[k][j] == newV[k][j] && cur[k][j] != oldV[k][j] {
 					p := univ[j]
 					kind := "permit-lost"
